@@ -374,6 +374,61 @@ example := truncated_prefix [1, 2, 1, 1, 2] [1, 2, 3] [1, 2, 3, 4, 5] (by decide
 
 /-! ## 5b. The functions the driver runs, end to end -/
 
+theorem rowLen_kymoImage (P : Nat) (hP : 0 < P) (px : List Int) :
+    (kymoImage P px).length = P ∧ rowLen (kymoImage P px) = (px.length + P - 1) / P := by
+  have hsh := kymo_shape P hP px
+  refine ⟨hsh.1, ?_⟩
+  unfold rowLen
+  cases hk : kymoImage P px with
+  | nil => rw [hk] at hsh; simp at hsh; omega
+  | cons row rest => rw [hk] at hsh; simpa using hsh.2 row (by simp)
+
+/-- The image `Scan._to_spatial` makes of a non-empty pixel list (two distinct axes, ≥ 2 pixels each). -/
+theorem scan_image_of_pixels (fa P sa L : Nat) (hax : fa ≠ sa) (hP : 2 ≤ P) (hL : 2 ≤ L)
+    (px : List Int) (hpx : px.length ≠ 0) :
+    imageOfPixels (.scan [(fa, P), (sa, L)]) (.ok px) =
+      .ok ⟨(if (px.length + L * P - 1) / (L * P) = 1 then [] else [(px.length + L * P - 1) / (L * P)])
+            ++ (if sa < fa then [P, L] else [L, P]),
+          (scanFrames L P (decide (sa < fa)) px).flatten.flatten⟩ := by
+  obtain ⟨m1, m2, m3, _⟩ := scan_axes_meta fa P sa L hax
+  unfold imageOfPixels
+  simp only [m1, m2, m3]
+  have hsh := scan_shape L P (by omega) (by omega) (decide (sa < fa)) px
+  congr 1
+  cases hk : scanFrames L P (decide (sa < fa)) px with
+  | nil =>
+    rw [hk] at hsh
+    have hLP : 0 < L * P := Nat.mul_pos (by omega) (by omega)
+    have := ceil_div_spec px.length (L * P) hLP
+    have h1 := hsh.1
+    simp only [List.length_nil] at h1
+    rw [← h1] at this
+    omega
+  | cons fr rest =>
+    rw [hk] at hsh
+    obtain ⟨hlen, hfr⟩ := hsh
+    have hfr0 := hfr fr (by simp)
+    have hrows : fr.length = if sa < fa then P else L := by simpa using hfr0.1
+    have hcols : rowLen fr = if sa < fa then L else P := by
+      unfold rowLen
+      cases hf : fr with
+      | nil => rw [hf] at hrows; simp at hrows; split at hrows <;> omega
+      | cons row _ =>
+        have := hfr0.2 row (by rw [hf]; simp)
+        simpa using this
+    simp only [List.head?_cons, Option.map_some, Option.getD_some, hrows, hcols, ← hlen]
+    unfold squeezeShape
+    have hP1 : (P != 1) = true := by rw [bne_iff_ne]; omega
+    have hL1 : (L != 1) = true := by rw [bne_iff_ne]; omega
+    generalize (fr :: rest).length = F
+    by_cases hflip : sa < fa <;> by_cases hF : F = 1
+    · subst hF; simp [hflip, hP1, hL1]
+    · have hF1 : (F != 1) = true := by rw [bne_iff_ne]; exact hF
+      simp [hflip, hP1, hL1, hF1, hF]
+    · subst hF; simp [hflip, hP1, hL1]
+    · have hF1 : (F != 1) = true := by rw [bne_iff_ne]; exact hF
+      simp [hflip, hP1, hL1, hF1, hF]
+
 /-- `Kymo.get_image(colour)` for a full-length channel: shape `P × ⌈#boundaries / P⌉`, entries those
     of `kymoImage` applied to the specification pixels (see `kymo_placement`). -/
 theorem kymo_get_image (P : Nat) (hP : 0 < P) (iw : List Nat) (chan : List Int)
@@ -406,47 +461,12 @@ theorem scan_get_image (fa P sa L : Nat) (hax : fa ≠ sa) (hP : 2 ≤ P) (hL : 
       .ok ⟨(if (iw.count 2 + L * P - 1) / (L * P) = 1 then [] else [(iw.count 2 + L * P - 1) / (L * P)])
             ++ (if sa < fa then [P, L] else [L, P]),
           (scanFrames L P (decide (sa < fa)) (pixelsSpec chan iw)).flatten.flatten⟩ := by
-  obtain ⟨m1, m2, m3, _⟩ := scan_axes_meta fa P sa L hax
-  unfold scanGetImage
-  simp only [m1, m2, m3]
-  rw [full_channel iw chan h h0, reconstructSum_spec]
+  rw [scanGetImage_eq, full_channel iw chan h h0, reconstructSum_spec]
   simp only [h, ne_eq, not_true_eq_false, if_false, hb]
-  have hsh := scan_shape L P (by omega) (by omega) (decide (sa < fa)) (pixelsSpec chan iw)
-  rw [pixels_count chan iw h] at hsh
-  congr 1
-  cases hk : scanFrames L P (decide (sa < fa)) (pixelsSpec chan iw) with
-  | nil =>
-    rw [hk] at hsh
-    have hLP : 0 < L * P := Nat.mul_pos (by omega) (by omega)
-    have := ceil_div_spec (iw.count 2) (L * P) hLP
-    have h1 := hsh.1
-    simp only [List.length_nil] at h1
-    rw [← h1] at this
-    omega
-  | cons fr rest =>
-    rw [hk] at hsh
-    obtain ⟨hlen, hfr⟩ := hsh
-    have hfr0 := hfr fr (by simp)
-    have hrows : fr.length = if sa < fa then P else L := by simpa using hfr0.1
-    have hcols : rowLen fr = if sa < fa then L else P := by
-      unfold rowLen
-      cases hf : fr with
-      | nil => rw [hf] at hrows; simp at hrows; split at hrows <;> omega
-      | cons row _ =>
-        have := hfr0.2 row (by rw [hf]; simp)
-        simpa using this
-    simp only [List.head?_cons, Option.map_some, Option.getD_some, hrows, hcols, ← hlen]
-    unfold squeezeShape
-    have hP1 : (P != 1) = true := by rw [bne_iff_ne]; omega
-    have hL1 : (L != 1) = true := by rw [bne_iff_ne]; omega
-    generalize (fr :: rest).length = F
-    by_cases hflip : sa < fa <;> by_cases hF : F = 1
-    · subst hF; simp [hflip, hP1, hL1]
-    · have hF1 : (F != 1) = true := by rw [bne_iff_ne]; exact hF
-      simp [hflip, hP1, hL1, hF1, hF]
-    · subst hF; simp [hflip, hP1, hL1]
-    · have hF1 : (F != 1) = true := by rw [bne_iff_ne]; exact hF
-      simp [hflip, hP1, hL1, hF1, hF]
+  have := scan_image_of_pixels fa P sa L hax hP hL (pixelsSpec chan iw)
+    (by rw [pixels_count chan iw h]; exact hb)
+  rw [pixels_count chan iw h] at this
+  exact this
 
 example : scanGetImage [(1, 2), (0, 2)] [1, 2, 2, 0, 2, 2, 2] [1, 2, 3, 9, 4, 5, 6]
     = .ok ⟨[2, 2, 2], [3, 4, 3, 5, 6, 0, 0, 0]⟩ := by decide
@@ -623,5 +643,409 @@ theorem kymo_no_data_same_shape (P : Nat) (hP : 0 < P) (iw : List Nat) (s0 s1 : 
 -- after the first-line repair (start = sample 4) of a kymograph whose green stream starts one sample late
 example := kymo_no_data_same_shape 2 (by decide) [1, 2, 2, 0, 2, 2, 0, 2, 2] ⟨0, []⟩ ⟨-1, [1, 2, 3, 4, 5, 6, 7, 8]⟩ 4
   (by decide) (by decide) (by decide) (by decide)
+
+/-! ## 8. Deepening round D: every channel length, conservation end to end, history independence -/
+
+/-- Conservation without hypotheses: the pixels of ANY stream add up to the total count of its used
+    samples up to the last pixel boundary (`uptoLastBoundary` strips the trailing non-boundary samples). -/
+theorem pixel_sum_total (s : List Sample) :
+    (pixelsSpecAux 0 s).sum = usedSum (uptoLastBoundary s) := by
+  obtain ⟨tail, hs, ht, hb⟩ := uptoLast_split s
+  have := pixel_sum_conserved (uptoLastBoundary s) tail hb ht
+  rw [← hs] at this
+  exact this
+
+
+example : (pixelsSpecAux 0 [(9, 0), (1, 1), (2, 2), (7, 0), (3, 2), (5, 1), (6, 0)]).sum = 6 ∧
+    usedSum (uptoLastBoundary [(9, 0), (1, 1), (2, 2), (7, 0), (3, 2), (5, 1), (6, 0)]) = 6 := by decide
+
+/-- `_get_confocal_data` + `reconstruct_image_sum`, complete behaviour for ANY photon slice (absent, shorter or
+    longer than the info wave, of equal length): the specification walk over the shared span. -/
+theorem channelPixels_spec (iw : List Nat) (chan : List Int) :
+    channelPixels iw chan = match colourPixelsSpec iw chan with
+      | none => .err "IndexError"
+      | some px => .ok px := by
+  unfold colourPixelsSpec
+  by_cases h0 : chan.length = 0
+  · rw [if_pos h0]
+    have : chan = [] := List.length_eq_zero_iff.mp h0
+    subst this
+    by_cases hb : iw.count 2 = 0
+    · rw [if_pos hb]
+      unfold channelPixels
+      simp only [List.length_nil, if_true]
+      rw [reconstructSum_spec]
+      simp [hb]
+    · rw [if_neg hb, missing_colour_zero iw hb]
+  · rw [if_neg h0, map_snd_zip_min]
+    unfold channelPixels
+    rw [if_neg h0]
+    have hal : align chan iw = (chan.take (min chan.length iw.length), iw.take (min chan.length iw.length)) := by
+      unfold align
+      by_cases hl : chan.length = iw.length
+      · rw [if_neg (by simpa using hl), hl, Nat.min_self, List.take_length, ← hl, List.take_length]
+      · simp [hl]
+    rw [hal, reconstructSum_spec]
+    simp only
+    have hlen : (chan.take (min chan.length iw.length)).length = (iw.take (min chan.length iw.length)).length := by
+      simp only [List.length_take]; omega
+    rw [if_neg (by simp [hlen])]
+    unfold pixelsSpec
+    rw [zip_take_min]
+    by_cases hb : (iw.take (min chan.length iw.length)).count 2 = 0
+    · rw [if_pos hb, if_pos hb]
+    · rw [if_neg hb, if_neg hb]
+
+example : channelPixels [0, 1, 2, 2, 0, 1, 2] [9, 1, 2, 3, 9] = .ok [3, 3] := by decide
+example : colourPixelsSpec [0, 1, 2, 2, 0, 1, 2] [9, 1, 2, 3, 9] = some [3, 3] := by decide
+
+theorem colour_pixels_count (iw : List Nat) (chan : List Int) (px : List Int)
+    (h : colourPixelsSpec iw chan = some px) :
+    px.length = (if chan.length = 0 then iw.count 2 else ((chan.zip iw).map (·.2)).count 2) ∧
+    px.length ≠ 0 := by
+  unfold colourPixelsSpec at h
+  by_cases h0 : chan.length = 0
+  · rw [if_pos h0] at h ⊢
+    by_cases hb : iw.count 2 = 0
+    · rw [if_pos hb] at h; cases h
+    · rw [if_neg hb] at h; cases h; simp [hb]
+  · rw [if_neg h0] at h ⊢
+    by_cases hb : ((chan.zip iw).map (·.2)).count 2 = 0
+    · rw [if_pos hb] at h; cases h
+    · rw [if_neg hb] at h; cases h
+      rw [spec_length]; exact ⟨rfl, hb⟩
+
+theorem colour_pixels_sum (iw : List Nat) (chan : List Int) (px : List Int)
+    (h : colourPixelsSpec iw chan = some px) :
+    px.sum = usedSum (uptoLastBoundary (chan.zip iw)) := by
+  unfold colourPixelsSpec at h
+  by_cases h0 : chan.length = 0
+  · rw [if_pos h0] at h
+    have : chan = [] := List.length_eq_zero_iff.mp h0
+    subst this
+    by_cases hb : iw.count 2 = 0
+    · rw [if_pos hb] at h; cases h
+    · rw [if_neg hb] at h; cases h
+      rw [sum_replicate_zero]; rfl
+  · rw [if_neg h0] at h
+    by_cases hb : ((chan.zip iw).map (·.2)).count 2 = 0
+    · rw [if_pos hb] at h; cases h
+    · rw [if_neg hb] at h; cases h
+      exact pixel_sum_total _
+
+/-- `Kymo.get_image(colour)` for ANY channel (absent, shorter or longer than the info wave, full). -/
+theorem kymo_get_image_any (P : Nat) (hP : 0 < P) (iw : List Nat) (chan : List Int) :
+    kymoGetImage P iw chan = match colourPixelsSpec iw chan with
+      | none => .err "IndexError"
+      | some px => .ok ⟨[P, (px.length + P - 1) / P], (kymoImage P px).flatten⟩ := by
+  rw [kymoGetImage_eq, channelPixels_spec]
+  cases colourPixelsSpec iw chan with
+  | none => rfl
+  | some px =>
+    show Res.ok (Image.mk [(kymoImage P px).length, rowLen (kymoImage P px)] _) = _
+    rw [(rowLen_kymoImage P hP px).1, (rowLen_kymoImage P hP px).2]
+
+/-- `Scan.get_image(colour)` for ANY channel. -/
+theorem scan_get_image_any (fa P sa L : Nat) (hax : fa ≠ sa) (hP : 2 ≤ P) (hL : 2 ≤ L) (iw : List Nat)
+    (chan : List Int) :
+    scanGetImage [(fa, P), (sa, L)] iw chan = match colourPixelsSpec iw chan with
+      | none => .err "IndexError"
+      | some px =>
+        .ok ⟨(if (px.length + L * P - 1) / (L * P) = 1 then [] else [(px.length + L * P - 1) / (L * P)])
+              ++ (if sa < fa then [P, L] else [L, P]),
+            (scanFrames L P (decide (sa < fa)) px).flatten.flatten⟩ := by
+  rw [scanGetImage_eq, channelPixels_spec]
+  cases h : colourPixelsSpec iw chan with
+  | none => rfl
+  | some px => exact scan_image_of_pixels fa P sa L hax hP hL px (colour_pixels_count iw chan px h).2
+
+/-- Conservation, end to end: the total of the image `Kymo.get_image(colour)` returns is the total count of
+    the non-discarded samples of the span the info wave shares with the photon stream, up to its last
+    pixel boundary. -/
+theorem kymo_image_total (P : Nat) (hP : 0 < P) (iw : List Nat) (chan : List Int) (im : Image)
+    (h : kymoGetImage P iw chan = .ok im) :
+    im.flat.sum = usedSum (uptoLastBoundary (chan.zip iw)) := by
+  rw [kymo_get_image_any P hP] at h
+  cases hs : colourPixelsSpec iw chan with
+  | none => rw [hs] at h; cases h
+  | some px =>
+    rw [hs] at h
+    cases h
+    show (kymoImage P px).flatten.sum = _
+    rw [image_total_kymo P hP, colour_pixels_sum iw chan px hs]
+
+theorem scan_image_total (fa P sa L : Nat) (hax : fa ≠ sa) (hP : 2 ≤ P) (hL : 2 ≤ L) (iw : List Nat)
+    (chan : List Int) (im : Image) (h : scanGetImage [(fa, P), (sa, L)] iw chan = .ok im) :
+    im.flat.sum = usedSum (uptoLastBoundary (chan.zip iw)) := by
+  rw [scan_get_image_any fa P sa L hax hP hL] at h
+  cases hs : colourPixelsSpec iw chan with
+  | none => rw [hs] at h; cases h
+  | some px =>
+    rw [hs] at h
+    cases h
+    show (scanFrames L P _ px).flatten.flatten.sum = _
+    rw [image_total_scan L P (by omega) (by omega), colour_pixels_sum iw chan px hs]
+
+example : kymoGetImage 2 [0, 1, 2, 2, 0, 1, 2, 1] [9, 1, 2, 3, 9, 4] = .ok ⟨[2, 1], [3, 3]⟩ := by decide
+example : usedSum (uptoLastBoundary ([9, 1, 2, 3, 9, 4].zip [0, 1, 2, 2, 0, 1, 2, 1])) = 6 := by decide
+example := kymo_image_total 2 (by decide) [0, 1, 2, 2, 0, 1, 2, 1] [9, 1, 2, 3, 9, 4] _ rfl
+
+/-- The function behind the protocol op `c02.total` is the total of the image `get_image` returns. -/
+theorem expected_total_kymo (P : Nat) (hP : 0 < P) (iw : List Nat) (chan : List Int) :
+    expectedTotal iw chan = match kymoGetImage P iw chan with
+      | .err e => .err e
+      | .ok im => .ok im.flat.sum := by
+  cases hk : kymoGetImage P iw chan with
+  | err e =>
+    rw [kymo_get_image_any P hP] at hk
+    unfold expectedTotal
+    cases hs : colourPixelsSpec iw chan with
+    | none => rw [hs] at hk; cases hk; rfl
+    | some px => rw [hs] at hk; cases hk
+  | ok im =>
+    have ht := kymo_image_total P hP iw chan im hk
+    rw [kymo_get_image_any P hP] at hk
+    unfold expectedTotal
+    cases hs : colourPixelsSpec iw chan with
+    | none => rw [hs] at hk; cases hk
+    | some px => simp only [ht]
+
+example : expectedTotal [0, 1, 2, 2, 0, 1, 2, 1] [9, 1, 2, 3, 9, 4] = .ok 6 := by decide
+
+theorem settled_fresh (k : Kind) (iw : List Nat) (ss : Streams)
+    (h : ∀ c, startsLate iw.length 0 (streamOf ss c) = false) : Settled k iw ss ObjState.fresh :=
+  ⟨coherent_fresh k iw ss, h⟩
+
+/-- An object none of whose photon streams starts inside it: every answer of ANY sequence of queries
+    (colours, rgb, `Kymo.shape`) is the answer a new object gives to that query asked first — THE image of
+    a colour does not depend on what was asked before — and the object's start never moves. -/
+theorem answers_history_independent (k : Kind) (iw : List Nat) (ss : Streams) (qs : List Nat)
+    (h : ∀ c, startsLate iw.length 0 (streamOf ss c) = false) :
+    runSeq k iw ss ObjState.fresh qs = qs.map (fun q => (query k iw ss ObjState.fresh q).2) ∧
+    (stateAfter k iw ss ObjState.fresh qs).off = 0 := by
+  have hs := settled_fresh k iw ss h
+  obtain ⟨h1, h2⟩ := runSeq_settled k iw ss qs _ hs
+  refine ⟨?_, h2⟩
+  rw [h1]
+  apply List.map_congr_left
+  intro q _
+  exact (query_settled k iw ss _ q hs).1.symm
+
+example : ∀ c, startsLate 7 0 (streamOf [⟨0, []⟩, ⟨1, [5, 1, 2, 3, 4, 5, 6]⟩, ⟨-7, [1, 2]⟩] c) = false := by
+  intro c
+  match c with
+  | 0 => decide
+  | 1 => decide
+  | 2 => decide
+  | n + 3 => rfl
+
+
+/-- The one-shot functions of section 5b (`c02.kymo`, `c02.scan`) are the first answer of the stateful
+    model: the photon slice `photonCount` hands over exists exactly when the stream does not start inside
+    the item, and then the first `get_image(colour)` of a new object is the image of that slice. -/
+theorem first_query_is_get_image (k : Kind) (iw : List Nat) (s : Stream) (c : Nat) :
+    (photonCount iw.length s.lead s.data = none ↔ startsLate iw.length 0 s = true) ∧
+    ∀ pc, photonCount iw.length s.lead s.data = some pc →
+      (queryColour k iw s c ObjState.fresh).2 = imageOfPixels k (channelPixels iw pc) ∧
+      (queryColour k iw s c ObjState.fresh).1.off = 0 :=
+  first_query_lemma k iw s c
+
+example : photonCount 7 1 [5, 1, 2, 3, 4, 5, 6] = some [1, 2, 3, 4, 5, 6] := by decide
+example := (first_query_is_get_image (.kymo 2) [0, 1, 2, 2, 0, 1, 2] ⟨1, [5, 1, 2, 3, 4, 5, 6]⟩ 1).2 _ rfl
+
+/-- Asking the same colour again on an object whose cache dict was not replaced by the first call returns
+    the same image and changes nothing (`method_cache`). -/
+theorem query_colour_idempotent (k : Kind) (iw : List Nat) (s : Stream) (c : Nat) (st : ObjState) (im : Image)
+    (h : (queryColour k iw s c st).2 = .ok im) (hg : (queryColour k iw s c st).1.gen = st.gen) :
+    queryColour k iw s c (queryColour k iw s c st).1 = ((queryColour k iw s c st).1, .ok im) :=
+  queryColour_idempotent k iw s c st im h hg
+
+example := query_colour_idempotent (.kymo 2) [0, 1, 2, 2] ⟨0, [5, 6, 7, 8]⟩ 1 ObjState.fresh ⟨[2, 1], [13, 8]⟩
+  (by decide) (by decide)
+
+/-! ## 9. Deepening round D: the first-line repair on regular info waves
+
+`regWave lead k d P n`: `lead` discarded samples, then `n` lines of `P` pixels of `k` samples (`k − 1` × use, then the
+boundary), each line followed by `d` discarded samples.  Which lines a kymograph keeps when a photon stream starts
+inside its first line was compared with the model only; on this family it is now a theorem. -/
+
+/-- `seek_timestamp_next_line` (pixel starts = followers of all boundaries but the last, distances, threshold
+    `(max + min) / 2`, first distance above it) lands on the first sample of the SECOND line — for every lead-in,
+    `k ≥ 1` samples per pixel, `d ≥ 1` dead samples, `P ≥ 2` pixels per line and `n ≥ 2` lines. -/
+theorem seek_regular_second_line (lead k d P n : Nat) (hk : 1 ≤ k) (hd : 1 ≤ d) :
+    seekNextLine (regWave lead k d (P + 2) (n + 2)) = some (lead + (P + 2) * k + d) :=
+  seek_regular lead k d P n hk hd
+
+example : seekNextLine (regWave 1 2 1 2 2) = some 6 := by decide
+example := seek_regular_second_line 1 2 1 0 0 (by decide) (by decide)
+
+/-- Each hypothesis is needed (kernel-checked): with ONE pixel per line the code lands on the THIRD line; without
+    dead time between the lines it lands on the third pixel (inside the first line); with a single line it fails
+    (`ValueError`: `np.max` of an empty array). -/
+example : seekNextLine (regWave 0 1 1 1 3) = some 4 ∧ (0 + 1 * 1 + 1 = 2) := by decide
+example : seekNextLine (regWave 0 2 0 3 2) = some 4 ∧ (0 + 3 * 2 + 0 = 6) := by decide
+example : seekNextLine (regWave 0 2 1 2 1) = none := by decide
+
+/-- First `get_image` of a colour whose photon stream starts inside the first line (any number of pixels per
+    line `Pp` in the metadata): the object's start moves to the second line, the cache dict is replaced, and -
+    when no stream starts later than that - the object is settled: by `runSeq_settled` every later answer is the
+    from-scratch answer for that start. -/
+theorem first_line_repair (Pp lead k d P n : Nat) (hk : 1 ≤ k) (hd : 1 ≤ d) (ss : Streams) (c : Nat)
+    (hlate : startsLate (regWave lead k d (P + 2) (n + 2)).length 0 (streamOf ss c) = true)
+    (hin : ∀ c', 0 ≤ (streamOf ss c').lead + ((lead + (P + 2) * k + d : Nat) : Int)) (qs : List Nat) :
+    (queryColour (.kymo Pp) (regWave lead k d (P + 2) (n + 2)) (streamOf ss c) c ObjState.fresh).1
+      = ⟨lead + (P + 2) * k + d, 1, []⟩ ∧
+    runSeq (.kymo Pp) (regWave lead k d (P + 2) (n + 2)) ss ⟨lead + (P + 2) * k + d, 1, []⟩ qs
+      = qs.map (pureAnswer (.kymo Pp) (regWave lead k d (P + 2) (n + 2)) ss (lead + (P + 2) * k + d)) := by
+  obtain ⟨h1, h2⟩ := first_line_repair_lemma Pp lead k d P n hk hd ss c hlate hin
+  exact ⟨h1, (runSeq_settled _ _ ss qs _ h2).1⟩
+
+example : startsLate (regWave 1 2 1 2 2).length 0 (streamOf [⟨0, []⟩, ⟨-2, [1, 2, 3, 4, 5, 6, 7, 8, 9]⟩] 1) = true := by
+  decide
+example : (queryColour (.kymo 2) (regWave 1 2 1 2 2) (streamOf [⟨0, []⟩, ⟨-2, [1, 2, 3, 4, 5, 6, 7, 8, 9]⟩] 1) 1
+    ObjState.fresh).1 = ⟨6, 1, []⟩ := by decide
+
+/-- What the repaired kymograph shows for a colour whose stream covers the whole info wave: the pixels of the
+    full reconstruction with the first line's `P` pixels removed, nothing else dropped or shifted. -/
+theorem fresh_after_repair (Pp lead k d P n : Nat) (hk : 1 ≤ k) (data : List Int)
+    (h : data.length = (regWave lead k d (P + 1) (n + 2)).length) :
+    freshImage (.kymo Pp) (regWave lead k d (P + 1) (n + 2)) ⟨0, data⟩ (lead + (P + 1) * k + d)
+      = imageOfPixels (.kymo Pp) (.ok ((pixelsSpec data (regWave lead k d (P + 1) (n + 2))).drop (P + 1))) := by
+  have haux := pixels_after_first_line_aux lead k d P (n + 1) hk data h
+  have hlenA : (List.replicate lead 0 ++ regLine k (P + 1) ++ List.replicate d 0).length = lead + (P + 1) * k + d := by
+    simp [regLine_length k hk]; omega
+  have hdrop : (regWave lead k d (P + 1) (n + 2)).drop (lead + (P + 1) * k + d) = regLines k d (P + 1) (n + 1) := by
+    rw [regWave_split, ← hlenA, List.drop_left' rfl]
+  have hle : lead + (P + 1) * k + d ≤ (regWave lead k d (P + 1) (n + 2)).length := by
+    rw [regWave_split, List.length_append, hlenA]; omega
+  clear hlenA
+  generalize hiw : regWave lead k d (P + 1) (n + 2) = iw at *
+  generalize hs : lead + (P + 1) * k + d = s' at *
+  unfold freshImage channelPixelsAt chanSlice
+  have hrel : ((0 : Int) + (s' : Int)) ≥ 0 := by omega
+  simp only [ge_iff_le] at hrel
+  simp only [ge_iff_le, hrel, if_true, true_or]
+  have htn : ((0 : Int) + (s' : Int)).toNat = s' := by omega
+  rw [htn]
+  have htake : (data.drop s').take (iw.length - s') = data.drop s' := by
+    apply List.take_of_length_le; simp; omega
+  rw [htake]
+  have hlen : (data.drop s').length = (iw.drop s').length := by simp; omega
+  have hne : (data.drop s').length ≠ 0 := by
+    rw [hlen, hdrop]
+    intro hz
+    have := regLines_count_pos k d P n
+    rw [List.length_eq_zero_iff.mp hz] at this
+    simp at this
+  rw [full_channel _ _ hlen hne, reconstructSum_spec]
+  have hb : (iw.drop s').count 2 ≠ 0 := by rw [hdrop]; exact regLines_count_pos k d P n
+  simp only [hlen, ne_eq, not_true_eq_false, if_false, hb]
+  rw [haux]
+
+example : freshImage (.kymo 2) (regWave 1 2 1 2 2) ⟨0, [9, 1, 2, 3, 4, 9, 5, 6, 7, 8, 9]⟩ 6 = .ok ⟨[2, 1], [11, 15]⟩ := by
+  decide
+example := fresh_after_repair 2 1 2 1 1 0 (by decide) [9, 1, 2, 3, 4, 9, 5, 6, 7, 8, 9] rfl
+
+/-! ## 10. Deepening round D: the property's sentence in index form; `Scan.shape` and the image; side conditions -/
+
+/-- Pixel `j` is the sum of the photon counts of EXACTLY the samples the info wave assigns to it: the samples that
+    are not flagged discard and have `j` pixel boundaries before them - and 0 when pixel `j` is not completed
+    (fewer than `j + 1` boundaries).  All lengths, any samples per pixel, any dead time, any discarded counts. -/
+theorem pixel_is_assigned_samples (data : List Int) (iw : List Nat) (h : data.length = iw.length) (j : Nat) :
+    (pixelsSpec data iw).getD j 0 = assignedSum data iw j := by
+  have := spec_getD_assigned iw data 0 j h
+  unfold pixelsSpec
+  rw [this]
+  simp
+
+example : (pixelsSpec [9, 1, 2, 7, 3, 4, 5] [0, 1, 2, 0, 1, 2, 1]).getD 1 0 = 7 ∧
+    assignedSum [9, 1, 2, 7, 3, 4, 5] [0, 1, 2, 0, 1, 2, 1] 1 = 7 := by decide
+example := pixel_is_assigned_samples [9, 1, 2, 7, 3, 4, 5] [0, 1, 2, 0, 1, 2, 1] rfl 1
+
+/-- ... and it sits where the scan-axis metadata says: kymograph entry (row `r`, column `ℓ`) of a full-length
+    channel is the total of the samples assigned to pixel `ℓ·P + r`. -/
+theorem kymo_entry_is_assigned (P : Nat) (hP : 0 < P) (iw : List Nat) (chan : List Int)
+    (h : chan.length = iw.length) (r ℓ : Nat) (hr : r < P) :
+    at2 (kymoImage P (pixelsSpec chan iw)) r ℓ = assignedSum chan iw (ℓ * P + r) := by
+  rw [kymo_placement P hP _ r ℓ hr, pixel_is_assigned_samples chan iw h]
+
+example := kymo_entry_is_assigned 2 (by decide) [0, 1, 2, 2, 0, 1, 2] [9, 1, 2, 3, 9, 4, 5] rfl 0 1 (by decide)
+
+/-- the same for a scan, in either axis order -/
+theorem scan_entry_is_assigned (L P : Nat) (hL : 0 < L) (hP : 0 < P) (iw : List Nat) (chan : List Int)
+    (h : chan.length = iw.length) (f l p : Nat) (hl : l < L) (hp : p < P) :
+    at3 (scanFrames L P false (pixelsSpec chan iw)) f l p = assignedSum chan iw ((f * L + l) * P + p) ∧
+    at3 (scanFrames L P true (pixelsSpec chan iw)) f p l = assignedSum chan iw ((f * L + l) * P + p) := by
+  rw [scan_placement_fast_lower L P hL hP _ f l p hl hp, scan_placement_fast_higher L P hL hP _ f l p hl hp,
+    pixel_is_assigned_samples chan iw h]
+  exact ⟨rfl, rfl⟩
+
+example := scan_entry_is_assigned 2 2 (by decide) (by decide) [1, 2, 2, 0, 2, 2, 2] [1, 2, 3, 9, 4, 5, 6] rfl 1 0 0
+  (by decide) (by decide)
+
+/-- `Scan.shape` (metadata + `num_frames` reconstructed from the info wave) is the shape of the image
+    `Scan.get_image(colour)` returns, plus the colour axis — for every colour that is absent or reaches the end of
+    the info wave. -/
+theorem scan_shape_matches_image (fa P sa L : Nat) (hax : fa ≠ sa) (hP : 2 ≤ P) (hL : 2 ≤ L) (iw : List Nat)
+    (chan : List Int) (hc : chan.length = 0 ∨ iw.length ≤ chan.length) (im : Image)
+    (h : scanGetImage [(fa, P), (sa, L)] iw chan = .ok im) :
+    scanShape [(fa, P), (sa, L)] 0 iw = im.shape ++ [3] := by
+  rw [scan_get_image_any fa P sa L hax hP hL] at h
+  cases hs : colourPixelsSpec iw chan with
+  | none => rw [hs] at h; cases h
+  | some px =>
+    rw [hs] at h
+    cases h
+    obtain ⟨hlen, hne⟩ := colour_pixels_count iw chan px hs
+    have hcount : px.length = iw.count 2 := by
+      rcases hc with h0 | hge
+      · rw [hlen, if_pos h0]
+      · have h0 : chan.length ≠ 0 := by
+          intro h0
+          have : iw = [] := List.length_eq_zero_iff.mp (by omega)
+          rw [if_pos h0, this] at hlen
+          simp at hlen; subst hlen; exact hne rfl
+        rw [hlen, if_neg h0, map_snd_zip_min, Nat.min_eq_right hge, List.take_length]
+    have hLP : 0 < L * P := Nat.mul_pos (by omega) (by omega)
+    obtain ⟨m1, m2, _, m4⟩ := scan_axes_meta fa P sa L hax
+    unfold scanShape
+    simp only [m1, m2, m4, numFrames, if_true, reconstructNumFrames, ← hcount, Nat.mul_comm P L]
+    have hF := ceil_div_spec px.length (L * P) hLP
+    generalize (px.length + L * P - 1) / (L * P) = F at hF ⊢
+    have hF1 : 1 ≤ F := by
+      cases F with
+      | zero => have := hF.1; simp only [Nat.zero_mul] at this; omega
+      | succ F => omega
+    by_cases h1 : F = 1
+    · subst h1
+      by_cases hlt : fa < sa
+      · have : ¬ sa < fa := by omega
+        simp [hlt, this]
+      · have : sa < fa := by omega
+        simp [hlt, this]
+    · have hgt : F > 1 := by omega
+      by_cases hlt : fa < sa
+      · have : ¬ sa < fa := by omega
+        simp [hlt, this, h1, hgt]
+      · have : sa < fa := by omega
+        simp [hlt, this, h1, hgt]
+
+example : scanShape [(1, 2), (0, 2)] 0 [1, 2, 2, 0, 2, 2, 2] = [2, 2, 2, 3] := by decide
+example := scan_shape_matches_image 1 2 0 2 (by decide) (by decide) (by decide) [1, 2, 2, 0, 2, 2, 2]
+  [1, 2, 3, 9, 4, 5, 6] (Or.inr (by decide)) ⟨[2, 2, 2], [3, 4, 3, 5, 6, 0, 0, 0]⟩ (by decide)
+
+/-- The hypothesis is needed: a colour that ends before the last frame gives a smaller image than `Scan.shape` says. -/
+example : scanShape [(0, 2), (1, 2)] 0 [2, 2, 2, 2, 2] = [2, 2, 2, 3] ∧
+    scanGetImage [(0, 2), (1, 2)] [2, 2, 2, 2, 2] [1, 1, 1] = .ok ⟨[2, 2], [1, 1, 1, 0]⟩ := by decide
+
+/-! kernel-checked witnesses: the side conditions of the placement / metadata theorems are needed -/
+-- `scan_axes_meta` needs two DISTINCT physical axes (`sorted` is stable: equal axis numbers keep the scan order)
+example : numPixels [(1, 5), (1, 7)] = [5, 7] ∧ ¬ ((1 : Nat) < 1) := by decide
+-- `kymo_placement` needs `r < P`: outside the image the entry is 0, whatever the pixel list holds there
+example : at2 (kymoImage 2 [10, 11, 12, 13]) 2 0 = 0 ∧ [10, 11, 12, 13].getD (0 * 2 + 2) 0 = 12 := by decide
+-- `scan_placement_fast_lower` needs `p < P`
+example : at3 (scanFrames 2 2 false [1, 2, 3, 4]) 0 0 2 = 0 ∧ [1, 2, 3, 4].getD ((0 * 2 + 0) * 2 + 2) 0 = 3 := by decide
+-- `image_total_kymo` needs `0 < P`
+example : (kymoImage 0 [1, 2]).flatten.sum = 0 := by decide
 
 end Verif.C02
